@@ -374,7 +374,7 @@ def run(rep, tier, rng, replay=None):
                        "of widths 1..64 inserted after 0..8 valid points (every bit phase), mistyped values after valid coordinates, wrong arity, i64 extremes, NaN/inf, min > max, "
                        "abandoned point-cloud and image writers, limit overrides, all setters, random walks; regression probes for the four repaired defect classes: finalize twice and "
                        "sections added after finalize (must be rejected, the file keeps what it had), a sub-writer finalized twice or used after its finalize (rejected), "
-                       "a duplicated index attribute of another type (prototype rejected). "
+                       "a duplicated index attribute of another type (prototype rejected), incomplete limits set by the caller (finalize of the point cloud rejected). "
                        "Direct oracles: no panic; every accepted call is representable under an independent reading of the documented rules; whenever the last call is a successful finalize "
                        "the file opens and contains exactly the finished point clouds with exactly the accepted points (bit for bit), bounds of the accepted points only, all blobs and image payloads. "
                        "Correspondence: result class of every call, every device byte, operation count and write log, and the reader's descriptors against the model's writer state. "
